@@ -21,6 +21,95 @@ def read(rel):
 def strip_comments(s):
     return re.sub(r"//[^\n]*", "", s)
 
+ITEM = re.compile(r"(?:pub(?:\([a-z]+\))?\s+)?const\s+([A-Z][A-Z0-9_]*)\s*:\s*([^=]+?)\s*=\s*([^;]+);", re.S)
+PLAIN_TY = re.compile(r"^(usize|u8|u16|u32|u64|u128|i32|i64|i128|f64|f32|bool|\[\s*u8\s*;\s*\w+\s*\])$")
+
+def const_items(rel):
+    """top-level `const NAME: TYPE = EXPR;` items of plain types (macro bodies and associated consts are skipped)"""
+    out = []
+    for n, t, e in ITEM.findall(strip_comments(read(rel))):
+        t, e = " ".join(t.split()), " ".join(e.split())
+        if "$" in e or "$" in t or "Self" in e or not PLAIN_TY.match(t):
+            continue
+        out.append((n, t, e))
+    return out
+
+def rustc_eval(files):
+    """Let the Rust compiler evaluate the constant items (any expression form: `3 * 8`, `*b"qco!"`, `b','`,
+    `size_of::<usize>()`, shifts, references to other constants). Returns {file: {NAME: value}}; {} when rustc is
+    unavailable or nothing compiles (the caller falls back to the small evaluator below)."""
+    import hashlib, subprocess, tempfile
+    build = os.path.join(os.path.dirname(os.path.abspath(__file__)), "..", "build")
+    os.makedirs(build, exist_ok=True)
+    per = {rel: const_items(rel) for rel in files}
+    def program(sel):
+        L = ["#![allow(unused, dead_code, non_upper_case_globals, unused_imports)]"]
+        for k, rel in enumerate(files):
+            L.append("mod m%d {" % k)
+            L.append("  use std::mem::size_of; use std::cmp::{min, max};")
+            if k > 0:
+                L.append("  use super::m0::*;")
+            for (n, t, e) in per[rel]:
+                if (rel, n) in sel:
+                    L.append("  pub const %s: %s = %s;" % (n, t, e))
+            L.append("  pub fn dump() {")
+            for (n, t, e) in per[rel]:
+                if (rel, n) in sel:
+                    L.append('    println!("%s\t%s\t{:?}", %s);' % (rel, n, n))
+            L.append("  }")
+            L.append("}")
+        L.append("fn main() { %s }" % " ".join("m%d::dump();" % k for k in range(len(files))))
+        return "\n".join(L) + "\n"
+    def run(sel):
+        src = program(sel)
+        h = hashlib.sha256(src.encode()).hexdigest()[:16]
+        exe = os.path.join(build, "consts_eval_" + h)
+        if not os.path.exists(exe):
+            rs = exe + ".rs"
+            open(rs, "w").write(src)
+            for old in os.listdir(build):
+                if old.startswith("consts_eval_") and not old.startswith("consts_eval_" + h):
+                    try: os.remove(os.path.join(build, old))
+                    except OSError: pass
+            p = subprocess.run(["rustc", "--edition", "2018", "-o", exe, rs], stdout=subprocess.PIPE, stderr=subprocess.PIPE, text=True)
+            if p.returncode != 0:
+                return None
+        p = subprocess.run([exe], stdout=subprocess.PIPE, text=True)
+        out = {}
+        for line in p.stdout.split("\n"):
+            f = line.split("\t")
+            if len(f) == 3:
+                out.setdefault(f[0], {})[f[1]] = f[2]
+        return out
+    allsel = {(rel, n) for rel in files for (n, t, e) in per[rel]}
+    try:
+        got = run(allsel)
+        if got is None:
+            # some item does not compile on its own (refers to crate items): keep the items that do, one by one on top
+            # of the first file's constants
+            base = {(files[0], n) for (n, t, e) in per[files[0]]}
+            if run(base) is None:
+                base = set()
+            good = set(base)
+            for rel in files[1:]:
+                for (n, t, e) in per[rel]:
+                    if run(good | {(rel, n)}) is not None:
+                        good.add((rel, n))
+            got = run(good) or {}
+    except OSError:
+        return {}
+    def val(v):
+        v = v.strip()
+        if v.startswith("["):
+            return [int(x) for x in re.findall(r"-?\d+", v)]
+        if v in ("true", "false"):
+            return v == "true"
+        try:
+            return int(v)
+        except ValueError:
+            return v       # floats stay text ("0.8")
+    return {rel: {n: val(v) for n, v in d.items()} for rel, d in got.items()}
+
 def ev(expr, env):
     """evaluate a small Rust constant expression"""
     e = expr.strip()
@@ -57,44 +146,8 @@ def need(d, k, where):
         raise Missing("%s in %s" % (k, where))
     return d[k]
 
-def main():
-    c = consts(read("constants.rs"))
-    comp = consts(read("compressor.rs"), c)
-    numd = consts(read("num_decompressor.rs"), c)
-    auto = consts(read("auto.rs"), c)
-    decomp = strip_comments(read("decompressor.rs"))
-    m = re.search(r"numbers_limit_per_item:\s*(\d+)", decomp)
-    if not m:
-        raise Missing("default numbers_limit_per_item in decompressor.rs")
-    default_limit = int(m.group(1))
-
-    fmt_names = ["MAGIC_CHUNK_BYTE", "MAGIC_TERMINATION_BYTE", "MAX_DELTA_ENCODING_ORDER",
-                 "BITS_TO_ENCODE_DELTA_ENCODING_ORDER", "MAX_ENTRIES", "BITS_TO_ENCODE_N_ENTRIES",
-                 "BITS_TO_ENCODE_N_PREFIXES", "MAX_JUMPSTART", "BITS_TO_ENCODE_JUMPSTART",
-                 "BITS_TO_ENCODE_COMPRESSED_BODY_SIZE"]
-    fmt = list(need(c, "MAGIC_HEADER", "constants.rs")) + [need(c, n, "constants.rs") for n in fmt_names]
-
-    # flags: code-length widths and the order of the flag bits, from flags.rs
-    fl = strip_comments(read("flags.rs"))
-    m = re.search(r"fn bits_to_encode_code_len.*?if self\.use_5_bit_code_len\s*\{\s*(\d+)\s*\}\s*else\s*\{\s*(\d+)\s*\}", fl, re.S)
-    if not m:
-        raise Missing("bits_to_encode_code_len in flags.rs")
-    code_len_bits = [int(m.group(1)), int(m.group(2))]
-    m = re.search(r"fn try_into\(self\).*?let mut res = vec!\[self\.(\w+)\];(.*?)let necessary_len", fl, re.S)
-    if not m:
-        raise Missing("flag serialisation order in flags.rs")
-    order = [m.group(1)]
-    for mm in re.finditer(r"res\.(?:extend|push)\((?:self\.)?(\w+)\)", m.group(2)):
-        order.append(mm.group(1))
-    flag_order_ok = order == ["use_5_bit_code_len", "delta_bits", "use_min_count_encoding", "use_gcds"]
-    # the reader's order
-    m = re.search(r"fn try_from\(bools: Vec<bool>\)(.*?)for &bit in bit_iter", fl, re.S)
-    if not m:
-        raise Missing("flag parse order in flags.rs")
-    rorder = re.findall(r"flags\.(\w+)\s*=", m.group(1))
-    flag_parse_ok = rorder == ["use_5_bit_code_len", "delta_encoding_order", "use_min_count_encoding", "use_gcds"]
-
-    # data types
+def textual_dtypes():
+    """fallback when the harness is not available: the data-type table from the macro invocations"""
     dts = []
     dt_dir = "data_types/"
     s = strip_comments(read(dt_dir + "signeds.rs"))
@@ -141,12 +194,112 @@ def main():
     if len(dts) != 15:
         raise Missing("expected 15 NumberLike impls, found %d" % len(dts))
 
+
+    return dts
+
+NOTES = []
+
+def harness_facts():
+    """what the compiled library says (public API): data-type table, parts per second, defaults, flag bytes"""
+    sys.path.insert(0, os.path.dirname(os.path.abspath(__file__)))
+    from qco import common as C
+    if not os.path.exists(C.HARNESS):
+        return None
+    a = C.run_lines(C.HARNESS, ["consts"], timeout=60)[0]
+    if not a.startswith("dt:"):
+        return None
+    f = {"dt": [], "pps": {}, "flags": {}}
+    for t in a.split(" "):
+        x = t.split(":")
+        if x[0] == "dt":
+            f["dt"].append((x[1], int(x[2]), int(x[3]), int(x[4])))
+        elif x[0] == "pps":
+            f["pps"][x[1]] = int(x[2])
+        elif x[0] == "flags":
+            f["flags"][(int(x[1]), int(x[2]))] = x[3]
+        elif x[0] in ("default_limit", "default_level"):
+            f[x[0]] = int(x[1])
+    probes = [0x80, 0x40, 0x20, 0x10, 0x08, 0x04, 0x02, 0x00]
+    ans = C.run_lines(C.HARNESS, ["dops i32 100000 W71636f21%02x%02x H" % ([d for d in f["dt"] if d[0] == "i32"][0][1], b) for b in probes], timeout=60)
+    f["parse"] = [x.split(" ; ")[-1].split("@")[0] for x in ans]
+    return f
+
+def main():
+    files = ["constants.rs", "compressor.rs", "num_decompressor.rs", "auto.rs", "compression_table.rs"]
+    rc = rustc_eval(files)
+    def table(rel, env=None):
+        d = dict(consts(read(rel), env))      # the small evaluator (fallback)
+        d.update(rc.get(rel, {}))             # what the Rust compiler computed wins
+        return d
+    c = table("constants.rs")
+    comp = table("compressor.rs", c)
+    numd = table("num_decompressor.rs", c)
+    auto = table("auto.rs", c)
+    ctab = table("compression_table.rs", c)
+    hf = harness_facts()
+
+    fmt_names = ["MAGIC_CHUNK_BYTE", "MAGIC_TERMINATION_BYTE", "MAX_DELTA_ENCODING_ORDER",
+                 "BITS_TO_ENCODE_DELTA_ENCODING_ORDER", "MAX_ENTRIES", "BITS_TO_ENCODE_N_ENTRIES",
+                 "BITS_TO_ENCODE_N_PREFIXES", "MAX_JUMPSTART", "BITS_TO_ENCODE_JUMPSTART",
+                 "BITS_TO_ENCODE_COMPRESSED_BODY_SIZE"]
+    fmt = list(need(c, "MAGIC_HEADER", "constants.rs")) + [need(c, n, "constants.rs") for n in fmt_names]
+
+    # default numbers_limit_per_item: from the compiled library, else from the text
+    if hf and "default_limit" in hf:
+        default_limit = hf["default_limit"]
+    else:
+        m = re.search(r"numbers_limit_per_item:\s*([\d_]+)", strip_comments(read("decompressor.rs")))
+        if not m:
+            raise Missing("default numbers_limit_per_item in decompressor.rs")
+        default_limit = int(m.group(1).replace("_", ""))
+
+    # flags. Code-length widths: textual (best effort). Bit order: from the compiled library's behaviour (the header it
+    # writes for every delta order / GCD setting; what it parses from one-bit flag bytes), else textual.
+    fl = strip_comments(read("flags.rs"))
+    m = re.search(r"fn bits_to_encode_code_len.*?if\s+self\s*\.\s*use_5_bit_code_len\s*\{\s*(\d+)\s*\}\s*else\s*\{\s*(\d+)\s*\}", fl, re.S)
+    if m:
+        code_len_bits = [int(m.group(1)), int(m.group(2))]
+    else:
+        code_len_bits = [5, 4]
+        NOTES.append("code-length widths not found textually in flags.rs: frozen values assumed (tied by the C02/C03 streams only)")
+    if hf and len(hf["flags"]) == 16:
+        flag_order_ok = all(hf["flags"][(o, g)] == "%02x" % (0x80 | (o << 4) | 0x08 | (g << 2)) for o in range(8) for g in (0, 1))
+        flag_parse_ok = hf["parse"] == ["ok flags=1,0,0,0", "ok flags=0,4,0,0", "ok flags=0,2,0,0", "ok flags=0,1,0,0",
+                                        "ok flags=0,0,1,0", "ok flags=0,0,0,1", "err Compatibility", "ok flags=0,0,0,0"]
+    else:
+        m = re.search(r"fn try_into\(self\).*?let mut res = vec!\[self\.(\w+)\];(.*?)let necessary_len", fl, re.S)
+        if not m:
+            raise Missing("flag serialisation order in flags.rs (and no harness to ask)")
+        order = [m.group(1)]
+        for mm in re.finditer(r"res\.(?:extend|push)\((?:self\.)?(\w+)\)", m.group(2)):
+            order.append(mm.group(1))
+        flag_order_ok = order == ["use_5_bit_code_len", "delta_bits", "use_min_count_encoding", "use_gcds"]
+        m = re.search(r"fn try_from\(bools: Vec<bool>\)(.*?)for &bit in bit_iter", fl, re.S)
+        if not m:
+            raise Missing("flag parse order in flags.rs (and no harness to ask)")
+        rorder = re.findall(r"flags\.(\w+)\s*=", m.group(1))
+        flag_parse_ok = rorder == ["use_5_bit_code_len", "delta_encoding_order", "use_min_count_encoding", "use_gcds"]
+
+    # data types: from the compiled library (NumberLike::HEADER_BYTE / PHYSICAL_BITS / Unsigned, conversions), else textual
+    KIND = {"i16": "int", "i32": "int", "i64": "int", "i128": "int", "u16": "uint", "u32": "uint", "u64": "uint", "u128": "uint",
+            "f32": "float", "f64": "float", "bool": "bool", "nanos": "int", "micros": "int", "nanos96": "ts96", "micros96": "ts96"}
+    if hf and len(hf["dt"]) == 15:
+        dts = [(n, hb, p, w, KIND[n], hf["pps"].get(n, 0)) for (n, hb, p, w) in hf["dt"]]
+        dts.sort(key=lambda d: d[1])
+    else:
+        dts = textual_dtypes()
+    if len(dts) != 15:
+        raise Missing("expected 15 NumberLike impls, found %d" % len(dts))
+
     # tunables
-    freq = re.search(r"const MIN_FREQUENCY_TO_USE_RUN_LEN: f64 = ([\d.]+);", strip_comments(read("compressor.rs")))
-    if not freq:
-        raise Missing("MIN_FREQUENCY_TO_USE_RUN_LEN")
     from fractions import Fraction
-    fr = Fraction(freq.group(1))
+    fv = comp.get("MIN_FREQUENCY_TO_USE_RUN_LEN")
+    if fv is None:
+        freq = re.search(r"const\s+MIN_FREQUENCY_TO_USE_RUN_LEN\s*:\s*f64\s*=\s*([\d.]+)\s*;", strip_comments(read("compressor.rs")))
+        if not freq:
+            raise Missing("MIN_FREQUENCY_TO_USE_RUN_LEN")
+        fv = freq.group(1)
+    fr = Fraction(str(fv))
     tun = {
         "minNToUseRunLen": need(comp, "MIN_N_TO_USE_RUN_LEN", "compressor.rs"),
         "minFreqNum": fr.numerator, "minFreqDen": fr.denominator,
@@ -158,6 +311,7 @@ def main():
         "autoDeltaLimit": need(auto, "AUTO_DELTA_LIMIT", "auto.rs"),
         "maxAutoDeltaCompressionLevel": need(auto, "MAX_AUTO_DELTA_COMPRESSION_LEVEL", "auto.rs"),
         "defaultNumbersLimit": default_limit,
+        "targetBranchingFactor": need(ctab, "TARGET_BRANCHING_FACTOR", "compression_table.rs"),
     }
 
     L = []
@@ -187,7 +341,9 @@ def main():
     old = open(out).read() if os.path.exists(out) else None
     if old != text:
         open(out, "w").write(text)
-    print("constants extracted: %d format values, %d dtypes, %d tunables%s" % (len(fmt), len(dts), len(tun), "" if old == text else " (file updated)"))
+    src = "compiled library (harness) + rustc-evaluated constant items" if hf else "source text only (no harness)"
+    print("constants extracted: %d format values, %d dtypes, %d tunables%s; source: %s%s" % (
+        len(fmt), len(dts), len(tun), "" if old == text else " (file updated)", src, "".join("; NOTE: " + n for n in NOTES)))
 
 if __name__ == "__main__":
     try:
